@@ -50,6 +50,9 @@ Clause(c) ==
       \* two services on one connection: every query event has a subject of its own, a request on it is delivered to
       \* one subscription, answered once, and only that query event's callback sees it (evaluated by the harness)
       [] c = "fresh"      -> R.fresh
+      \* a burst of requests while the group is busy: the listener keeps taking them out of the (small) subscription
+      \* channel, none is dropped there, each is answered once
+      [] c = "burst"      -> R.dropped = 0 /\ \A k \in 1..Len(R.replies) : R.replies[k][2] = 1
       [] c = "serialized" -> ~R.overlap     \* no query callback ran while another callback of the resource's group was inside
       [] OTHER -> FALSE
 Clauses == {"serialized", "one-reply", "content", "callback-per-request", "nil-once", "nil-at-most-once", "nil-last", "failed-sub", "released"}
